@@ -35,6 +35,7 @@ JUSTIFIED = {
     ("RawVec::<'a, T>::shrink_to_fit", '(sizeof(T) * arg2)'): 'amount <= cap is asserted first, so amount * size <= cap * size',
     ("Vec::<'bump, T>::extend_from_slice_copy_unchecked", '(len(arg2) + load[*(arg1).len])'): "unsafe fn contract: the caller reserved other.len() additional slots",
     ("String::<'bump>::remove", '(len_utf8(vproj(next(&), Some, 0)) + arg2)'): 'idx is a char boundary < len and ch is the char starting there, so idx + ch.len_utf8() <= len',
+    ("Drain::<'a, 'bump, T>::fill", '(load[*(load[*(arg1).vec]).len] + 1)'): 'the slot written lies before tail_start (range_slice bounds the loop), so len + 1 <= tail_start <= cap',
     ("Drain::<'a, 'bump, T>::fill", '(load[*().len] + 1)'): 'the slot written lies before tail_start (range_slice bounds the loop), so len + 1 <= tail_start <= cap',
     ("Vec::<'bump, T>::insert", '(load[*(arg1).len] + 1)'): 'len < cap after the `len == cap => reserve(1)` branch',
     ("Vec::<'bump, T>::push", '(load[*(arg1).len] + 1)'): 'len < cap after the `len == cap => reserve(1)` branch',
@@ -85,6 +86,20 @@ def unjustified(I, term, facts, depth=0, out=None):
                     ok = True
         if not ok and term[1] in ('add', 'mul') and is_c(a) and is_c(b):
             ok = True
+        if not ok and term[1] == 'add' and b is not None:
+            # x + (y - z) with x <= z is at most y: it cannot wrap (whether y - z wraps is that node's own question)
+            for x_, d_ in ((a, b), (b, a)):
+                if isinstance(d_, tuple) and d_ and d_[0] == 'app' and d_[1] in ('sub', 'wsub') and len(d_) == 4:
+                    try:
+                        if lin(app('sub', d_[3], x_))[0] == {} and lin(app('sub', d_[3], x_))[1] >= 0:
+                            ok = True
+                        else:
+                            dd, cc = lin(app('sub', d_[3], x_))
+                            # z - x is a sum of non-negative terms (lengths, widths) with non-negative coefficients
+                            if cc >= 0 and all(v > 0 for v in dd.values()):
+                                ok = True
+                    except Exception:
+                        pass
         if not ok:
             out.append(term)
     for x in term[1:]:
